@@ -1,4 +1,4 @@
-import Invoke.Model.Val
+import Invoke.Model.Levels
 import Driver.Util
 /-! Token codec for nested settings shared by `drv_val` and `drv_env`.
 
@@ -100,5 +100,41 @@ def decEnviron (s : String) : List (List Char × List Char) :=
 
 /-- `-` = empty string -/
 def decStr (s : String) : List Char := if s == "-" then [] else decChars s
+
+/-! ### histories on ONE configuration object (`hist <prefix> <op> <op> …`)
+
+    ops: `<l>=<tree>` replaces the content of level l (d c s u p r o m = defaults collection system user project
+    runtime overrides modifications); `<l>=-` unloads it without re-merging (`set_*(None)` + `load_*()`);
+    `e=<environ>` is `load_shell_env()` under that environment (prints the view
+    after it, or `err:<Class>` and stops); `v` prints the current view.  Printed items are joined by '|'. -/
+
+def levelOfCode (c : String) : Option Level :=
+  if c == "d" then some .defaults else if c == "c" then some .collection else if c == "s" then some .system
+  else if c == "u" then some .user else if c == "p" then some .project else if c == "r" then some .runtime
+  else if c == "o" then some .overrides else if c == "m" then some .modifications else none
+
+def histRun (pre : List Char) : List String → LoadSt → List String → List String
+  | [], _, acc => acc.reverse
+  | op :: rest, st, acc =>
+    if op == "v" then histRun pre rest st (("ok " ++ encTree st.cache) :: acc)
+    else match op.splitOn "=" with
+      | [code, arg] =>
+        if code == "e" then
+          match st.loadShellEnv pre (decEnviron arg) with
+          | .error e => (("err:" ++ errName e) :: acc).reverse
+          | .ok st' => histRun pre rest st' (("ok " ++ encTree st'.cache) :: acc)
+        else if arg == "-" then
+          match levelOfCode code with
+          | some l => histRun pre rest (st.unload l) acc
+          | none => ("bad-op" :: acc).reverse
+        else match levelOfCode code, decTree arg with
+          | some l, some t => histRun pre rest (st.load l t) acc
+          | _, _ => ("bad-op" :: acc).reverse
+      | _ => ("bad-op" :: acc).reverse
+
+def histStep (toks : List String) : String :=
+  match toks with
+  | pre :: ops => "|".intercalate (histRun (decStr pre) ops LoadSt.init [])
+  | [] => "bad-op"
 
 end Drv.VC
